@@ -36,6 +36,7 @@ def main(clauses):
         print(json.dumps({"status": "error", "error": "unknown clause %r" % clause}))
         return
     n = 0
+    listed = None
     try:
         for name in names:
             check, family = clauses[name]
@@ -49,8 +50,16 @@ def main(clauses):
                 if bad:
                     out = {"status": "fail", "clause": name, "evaluations": n, "inputs": to_jsonable(inp)}
                     out.update(to_jsonable(bad))
+                    if bad.get("finding") and mode == "family":
+                        # a failure tagged as a listed finding does not stop the enumeration: other failures must still surface
+                        listed = listed or out
+                        continue
                     print(json.dumps(out))
                     return
+        if listed is not None:
+            listed["evaluations"] = n
+            print(json.dumps(listed))
+            return
         print(json.dumps({"status": "pass", "evaluations": n, "clause": clause}))
     except Exception as ex:
         print(json.dumps({"status": "error", "error": "%s: %s" % (type(ex).__name__, ex), "traceback": traceback.format_exc()[-1500:]}))
